@@ -114,6 +114,9 @@ func (g *gen) otherZone(not string) string {
 	}
 }
 
+// zones whose offsets were already whole hours and stable in 1896-1904
+var oldZones = map[string]bool{"UTC": true, "America/New_York": true, "Europe/London": true, "Europe/Berlin": true, "Asia/Tokyo": true, "Australia/Sydney": true}
+
 // genRun draws one run (expression, options, zones, start instant, number of steps).
 func (g *gen) genRun(thorough bool, dstZones []string) *run {
 	r := &run{}
@@ -122,7 +125,7 @@ func (g *gen) genRun(thorough bool, dstZones []string) *run {
 	if g.rng.Intn(100) < 72 {
 		r.Zone = dstZones[g.rng.Intn(len(dstZones))]
 	} else {
-		r.Zone = zoneNames[g.rng.Intn(len(zoneNames))]
+		r.Zone = walkZones[g.rng.Intn(len(walkZones))]
 	}
 	z := zoneOf(r.Zone)
 	loc := mustLoad(r.Zone)
@@ -158,10 +161,12 @@ func (g *gen) genRun(thorough bool, dstZones []string) *run {
 		}
 	}
 	era := 0
-	if q := g.rng.Intn(100); q < 5 {
+	if q := g.rng.Intn(100); q < 4 {
 		era = 2096
-	} else if q < 9 {
+	} else if q < 8 {
 		era = 2196
+	} else if q < 11 && oldZones[r.Zone] {
+		era = 1896
 	}
 	start, h, aim := g.pickStart(z, loc, era)
 	if era != 0 {
@@ -289,44 +294,90 @@ var stagedCases = []staged{
 	{"0 30 2 * * *", "America/New_York", "2100-03-13T00:00:00-05:00", 3, "spring forward 2100-03-14"},
 	{"0 30 1 * * *", "America/New_York", "2100-11-06T00:00:00-04:00", 3, "fall back 2100-11-07: 01:30 twice"},
 	{"0 0 0 31 4 *", "UTC", "2030-01-01T00:00:00Z", 1, "never: the zero time"},
-	// one deterministic reproducer for every (zone, failure class) pair the unchanged tree exhibits (found by the
-	// sweep below at full density, VERIF_SEED=1..20 and a thorough run): every run hits each of them, so the set of
-	// KNOWN-FINDING lines does not depend on the seed
-	{"0 30 1 * * *", "Australia/Lord_Howe", "2010-10-03T01:30:00+10:30", 1, "known: zone-shift-not-multiple-of-1h:Australia/Lord_Howe:result-does-not-match:hour"},
-	{"0 * 0 * * *", "Australia/Lord_Howe", "2023-10-01T02:30:00+11:00", 1, "known: zone-shift-not-multiple-of-1h:Australia/Lord_Howe:skipped-earlier-match"},
-	{"0 0 23 * * 6", "Pacific/Apia", "2011-12-29T21:30:00-10:00", 1, "known: zone-skips-a-day:Pacific/Apia:hang"},
-	{"0 * 1 9 * *", "Africa/Cairo", "2010-09-09T22:59:00+02:00", 1, "known: zone-transition-at-midnight:Africa/Cairo:result-does-not-match:dom-dow"},
-	{"0 * * * 7 5", "Africa/Cairo", "2014-07-31T22:59:00+02:00", 1, "known: zone-transition-at-midnight:Africa/Cairo:result-does-not-match:month"},
-	{"0 * * * * 5", "Africa/Cairo", "2014-07-31T23:50:00+02:00", 1, "known: zone-transition-at-midnight:Africa/Cairo:skipped-earlier-match"},
-	{"0 * 1 1 * *", "America/Asuncion", "2011-10-01T22:59:00-04:00", 1, "known: zone-transition-at-midnight:America/Asuncion:result-does-not-match:dom-dow"},
-	{"0 * 1 * 9 *", "America/Asuncion", "2017-09-30T23:50:00-04:00", 1, "known: zone-transition-at-midnight:America/Asuncion:result-does-not-match:month"},
-	{"0 * * * 9 *", "America/Asuncion", "2017-10-01T01:29:59-03:00", 1, "known: zone-transition-at-midnight:America/Asuncion:skipped-earlier-match"},
-	{"0 * 1 13 * *", "America/Havana", "2010-03-13T21:30:00-05:00", 1, "known: zone-transition-at-midnight:America/Havana:result-does-not-match:dom-dow"},
-	{"0 * 1 * 3 *", "America/Havana", "2012-03-31T22:59:00-05:00", 1, "known: zone-transition-at-midnight:America/Havana:result-does-not-match:month"},
-	{"0 * * * 3 *", "America/Havana", "2012-04-01T01:00:00-04:00", 1, "known: zone-transition-at-midnight:America/Havana:skipped-earlier-match"},
-	{"0 * 1 1 * *", "America/Santiago", "2029-09-01T21:30:00-04:00", 1, "known: zone-transition-at-midnight:America/Santiago:result-does-not-match:dom-dow"},
-	{"0 * 1 15 * *", "America/Sao_Paulo", "2011-10-15T23:50:00-03:00", 1, "known: zone-transition-at-midnight:America/Sao_Paulo:result-does-not-match:dom-dow"},
-	{"0 * 1 26 * *", "Asia/Beirut", "2011-03-26T22:59:00+02:00", 1, "known: zone-transition-at-midnight:Asia/Beirut:result-does-not-match:dom-dow"},
-	{"0 * * * * 0", "Asia/Beirut", "2019-03-30T21:30:00+02:00", 1, "known: zone-transition-at-midnight:Asia/Beirut:skipped-earlier-match"},
-	{"0 * 1 21 * *", "Asia/Tehran", "2010-03-21T22:59:00+03:30", 1, "known: zone-transition-at-midnight:Asia/Tehran:result-does-not-match:dom-dow"},
-	{"0 * * * * 1", "Asia/Tehran", "2010-03-20T18:00:00+03:30", 1, "known: zone-transition-at-midnight:Asia/Tehran:skipped-earlier-match"},
-	{"0 * 1 25 * *", "Pacific/Apia", "2010-09-25T23:50:00-11:00", 1, "known: zone-transition-at-midnight:Pacific/Apia:result-does-not-match:dom-dow"},
-	{"0 1 * 7 * *", "America/St_Johns", "2010-11-05T18:01:00-02:30", 1, "known: zone-transition-not-on-the-hour:America/St_Johns:result-does-not-match:dom-dow"},
-	{"0 1 0 * * *", "America/St_Johns", "2010-03-13T21:31:00-03:30", 1, "known: zone-transition-not-on-the-hour:America/St_Johns:result-does-not-match:hour"},
-	{"0 * * 7 * *", "America/St_Johns", "2010-11-06T23:30:59-03:30", 1, "known: zone-transition-not-on-the-hour:America/St_Johns:result-not-after-t"},
-	{"0 * * 7 * *", "America/St_Johns", "2010-11-07T00:00:00-02:30", 1, "known: zone-transition-not-on-the-hour:America/St_Johns:skipped-earlier-match"},
-	{"0 45 2 * * *", "Pacific/Chatham", "2012-09-30T00:15:00+12:45", 1, "known: zone-transition-not-on-the-hour:Pacific/Chatham:result-does-not-match:hour"},
-	{"0 * 3 * * *", "Pacific/Chatham", "2011-04-03T02:45:00+12:45", 1, "known: zone-transition-not-on-the-hour:Pacific/Chatham:result-not-after-t"},
-	{"0 * 2 * * *", "Pacific/Chatham", "2010-04-04T03:35:00+13:45", 1, "known: zone-transition-not-on-the-hour:Pacific/Chatham:skipped-earlier-match"},
-	{"0 0 19 29 2 *", "America/Asuncion", "2021-09-30T19:17:14-04:00", 1, "known: zone-transition-at-midnight:America/Asuncion:zero-although-match-exists"},
+	{"0 0 0 29 2 *", "UTC", "1899-06-01T00:00:00Z", 2, "4y9m ahead across 1900"},
+	{"0 0 0 29 2 *", "America/New_York", "1899-03-01T00:00:00-05:00", 1, "4y11m29d ahead across 1900: must be found"},
+	{"0 0 0 29 2 *", "Europe/Berlin", "1896-03-01T00:00:00+01:00", 1, "eight years ahead across 1900"},
+	// the search reaches, by whole days, a midnight that does not exist on the first of a month (correct on the unchanged tree)
+	{"0 0 12 1 9 *", "America/Asuncion", "2017-09-02T00:00:00-04:00", 2, "day loop into 2017-10-01, September only"},
+	{"0 0 12 1 3 *", "America/Havana", "2012-03-02T00:00:00-05:00", 2, "day loop into 2012-04-01, March only"},
+	{"0 30 6 1 * *", "America/Asuncion", "2023-09-15T00:00:00-04:00", 3, "first of every month across 2023-10-01"},
+	{"0 0 12 * * *", "Pacific/Apia", "2011-12-29T13:00:00-10:00", 2, "across the skipped 2011-12-30"},
+	// defects of the unchanged tree found by the sweep / seeded runs, kept as fixed cases
+	{"0 30 1 * * *", "Australia/Lord_Howe", "2010-10-03T01:30:00+10:30", 1, "exhibits zone-shift-not-multiple-of-1h:Australia/Lord_Howe:result-does-not-match:hour"},
+	{"0 * 0 * * *", "Australia/Lord_Howe", "2023-10-01T02:30:00+11:00", 1, "exhibits zone-shift-not-multiple-of-1h:Australia/Lord_Howe:skipped-earlier-match"},
+	{"0 0 23 * * 6", "Pacific/Apia", "2011-12-29T21:30:00-10:00", 1, "exhibits zone-skips-a-day:Pacific/Apia:hang"},
+	{"0 * 1 9 * *", "Africa/Cairo", "2010-09-09T22:59:00+02:00", 1, "exhibits zone-transition-at-midnight:Africa/Cairo:result-does-not-match:dom-dow"},
+	{"0 * * * 7 5", "Africa/Cairo", "2014-07-31T22:59:00+02:00", 1, "exhibits zone-transition-at-midnight:Africa/Cairo:result-does-not-match:month"},
+	{"0 * * * * 5", "Africa/Cairo", "2014-07-31T23:50:00+02:00", 1, "exhibits zone-transition-at-midnight:Africa/Cairo:skipped-earlier-match"},
+	{"0 * 1 1 * *", "America/Asuncion", "2011-10-01T22:59:00-04:00", 1, "exhibits zone-transition-at-midnight:America/Asuncion:result-does-not-match:dom-dow"},
+	{"0 * 1 * 9 *", "America/Asuncion", "2017-09-30T23:50:00-04:00", 1, "exhibits zone-transition-at-midnight:America/Asuncion:result-does-not-match:month"},
+	{"0 * * * 9 *", "America/Asuncion", "2017-10-01T01:29:59-03:00", 1, "exhibits zone-transition-at-midnight:America/Asuncion:skipped-earlier-match"},
+	{"0 * 1 13 * *", "America/Havana", "2010-03-13T21:30:00-05:00", 1, "exhibits zone-transition-at-midnight:America/Havana:result-does-not-match:dom-dow"},
+	{"0 * 1 * 3 *", "America/Havana", "2012-03-31T22:59:00-05:00", 1, "exhibits zone-transition-at-midnight:America/Havana:result-does-not-match:month"},
+	{"0 * * * 3 *", "America/Havana", "2012-04-01T01:00:00-04:00", 1, "exhibits zone-transition-at-midnight:America/Havana:skipped-earlier-match"},
+	{"0 * 1 1 * *", "America/Santiago", "2029-09-01T21:30:00-04:00", 1, "exhibits zone-transition-at-midnight:America/Santiago:result-does-not-match:dom-dow"},
+	{"0 * 1 15 * *", "America/Sao_Paulo", "2011-10-15T23:50:00-03:00", 1, "exhibits zone-transition-at-midnight:America/Sao_Paulo:result-does-not-match:dom-dow"},
+	{"0 * 1 26 * *", "Asia/Beirut", "2011-03-26T22:59:00+02:00", 1, "exhibits zone-transition-at-midnight:Asia/Beirut:result-does-not-match:dom-dow"},
+	{"0 * * * * 0", "Asia/Beirut", "2019-03-30T21:30:00+02:00", 1, "exhibits zone-transition-at-midnight:Asia/Beirut:skipped-earlier-match"},
+	{"0 * 1 21 * *", "Asia/Tehran", "2010-03-21T22:59:00+03:30", 1, "exhibits zone-transition-at-midnight:Asia/Tehran:result-does-not-match:dom-dow"},
+	{"0 * * * * 1", "Asia/Tehran", "2010-03-20T18:00:00+03:30", 1, "exhibits zone-transition-at-midnight:Asia/Tehran:skipped-earlier-match"},
+	{"0 * 1 25 * *", "Pacific/Apia", "2010-09-25T23:50:00-11:00", 1, "exhibits zone-transition-at-midnight:Pacific/Apia:result-does-not-match:dom-dow"},
+	{"0 1 * 7 * *", "America/St_Johns", "2010-11-05T18:01:00-02:30", 1, "exhibits zone-transition-not-on-the-hour:America/St_Johns:result-does-not-match:dom-dow"},
+	{"0 1 0 * * *", "America/St_Johns", "2010-03-13T21:31:00-03:30", 1, "exhibits zone-transition-not-on-the-hour:America/St_Johns:result-does-not-match:hour"},
+	{"0 * * 7 * *", "America/St_Johns", "2010-11-06T23:30:59-03:30", 1, "exhibits zone-transition-not-on-the-hour:America/St_Johns:result-not-after-t"},
+	{"0 * * 7 * *", "America/St_Johns", "2010-11-07T00:00:00-02:30", 1, "exhibits zone-transition-not-on-the-hour:America/St_Johns:skipped-earlier-match"},
+	{"0 45 2 * * *", "Pacific/Chatham", "2012-09-30T00:15:00+12:45", 1, "exhibits zone-transition-not-on-the-hour:Pacific/Chatham:result-does-not-match:hour"},
+	{"0 * 3 * * *", "Pacific/Chatham", "2011-04-03T02:45:00+12:45", 1, "exhibits zone-transition-not-on-the-hour:Pacific/Chatham:result-not-after-t"},
+	{"0 * 2 * * *", "Pacific/Chatham", "2010-04-04T03:35:00+13:45", 1, "exhibits zone-transition-not-on-the-hour:Pacific/Chatham:skipped-earlier-match"},
+	{"0 0 19 29 2 *", "America/Asuncion", "2021-09-30T19:17:14-04:00", 1, "exhibits zone-transition-at-midnight:America/Asuncion:zero-although-match-exists"},
+}
+
+// ---------- leap-day and impossible-date schedules around the century years ----------
+
+// leapDayRuns: 29-February / impossible-date expressions (five and six fields, with TZ=, CRON_TZ= or no prefix) from
+// start instants in the years before 1900, 2100 and 2200 (no 29 February: the next one is up to eight years away) and
+// around ordinary leap years.  "None within five years" is judged by TLC: a match whose wall-clock reading is at
+// most five calendar years after that of t must be returned, whatever the calendar year it falls in.
+func leapDayRuns() []*run {
+	zones := []string{"UTC", "America/New_York", "Europe/Berlin", "Asia/Tokyo", "Australia/Sydney"}
+	specs := []string{"0 0 29 2 *", "30 12 29 feb ?", "0 0 30 2 *", "0 0 31 4,6,9,11 *", "15 6 29 2 0",
+		"0 0 0 29 2 *", "59 59 23 29 2 *", "0 0 0 31 2 ?"}
+	type ymd struct{ y, mo, d, h, mi, s int }
+	var starts []ymd
+	for _, c := range []int{1900, 2100, 2200} {
+		starts = append(starts, ymd{c - 4, 3, 1, 0, 0, 0}, ymd{c - 4, 2, 28, 23, 59, 59}, ymd{c - 1, 1, 15, 0, 0, 0}, ymd{c - 1, 2, 28, 12, 0, 0},
+			ymd{c - 1, 3, 1, 0, 0, 0}, ymd{c - 1, 6, 1, 0, 0, 0}, ymd{c - 1, 12, 31, 23, 59, 59}, ymd{c, 2, 28, 23, 0, 0}, ymd{c + 3, 6, 1, 0, 0, 0})
+	}
+	starts = append(starts, ymd{2019, 3, 1, 0, 0, 0}, ymd{2020, 2, 29, 0, 0, 0}, ymd{2020, 2, 29, 12, 30, 0}, ymd{2023, 12, 31, 23, 59, 59}, ymd{2016, 2, 28, 23, 59, 59})
+	var out []*run
+	i := 0
+	for _, sp := range specs {
+		for _, st := range starts {
+			i++
+			zone := zones[(i*3+i/5)%len(zones)]
+			mode := (i + i/7) % 3
+			loc := mustLoad(zone)
+			r := &run{Zone: zone, Steps: 2, Mode: "leapday", Start: time.Date(st.y, time.Month(st.mo), st.d, st.h, st.mi, st.s, 0, loc), X: parseStaged(sp, zone)}
+			if len(r.X.Fields) == 5 {
+				r.X.Places = placeSets[0]
+			}
+			switch mode {
+			case 0: // no prefix: read in the zone of the instants handed to Next
+				r.X.TZ, r.X.TZKnown, r.X.Prefix = "", false, ""
+				r.Carry = "zone"
+			case 1:
+				r.Carry = "same"
+			case 2:
+				r.X.Prefix = "CRON_TZ="
+				r.Carry = "UTC"
+			}
+			out = append(out, r)
+		}
+	}
+	return out
 }
 
 // ---------- deterministic sweep around the transitions of a zone ----------
-
-// sweepZones: zones whose transitions are not the plain "whole hour, on the hour, not at midnight" kind; the sweep
-// pins down, without randomness, which failure classes the code exhibits there.
-var sweepZones = []string{"Australia/Lord_Howe", "Pacific/Chatham", "America/St_Johns", "Asia/Tehran", "Asia/Beirut", "Africa/Cairo",
-	"America/Sao_Paulo", "America/Asuncion", "America/Santiago", "America/Havana", "Pacific/Apia"}
 
 func uniq(xs []string) []string {
 	seen := map[string]bool{}
@@ -350,6 +401,17 @@ func sweepRuns(zone string, keep func(i int) bool) []*run {
 	var out []*run
 	i := 0
 	for _, tr := range z.trans {
+		// a skipped calendar day makes Next spin for ever (staged case); neither it nor the transitions of the year
+		// before it (whose walks would run into it) are swept, so that no run of the sweep depends on a watchdog
+		skip := false
+		for _, o := range z.trans {
+			if abs64(int64(o.After-o.Before)) >= 86400 && o.At-tr.At >= 0 && o.At-tr.At < 400*86400 {
+				skip = true
+			}
+		}
+		if skip {
+			continue
+		}
 		wb, wa := time.Unix(tr.At-1, 0).In(loc), time.Unix(tr.At, 0).In(loc)
 		kind := tr.class()
 		if wa.Day() == 1 || wb.Day() == 1 {
@@ -372,11 +434,11 @@ func sweepRuns(zone string, keep func(i int) bool) []*run {
 		if wb.Minute() != 59 {
 			mins = append(mins, it(wb.Minute()))
 		}
-		hours := uniq([]string{it(wb.Hour()), it(wa.Hour()), it((wa.Hour() + 1) % 24), it((wb.Hour() + 23) % 24), "*"})
+		hours := uniq([]string{it(wb.Hour()), it(wa.Hour()), it((wa.Hour() + 1) % 24), it((wb.Hour() + 23) % 24), "12", "*"})
 		doms := uniq([]string{"*", it(wb.Day()), it(wa.Day()), it(wa.AddDate(0, 0, 1).Day())})
 		months := uniq([]string{"*", it(int(wb.Month())), it(int(wa.Month()))})
 		dows := []string{"*", it(int(wa.Weekday()))}
-		deltas := []int64{-30 * 3600, -9000, -3660, -600, 0, 1799, 3660}
+		deltas := []int64{-29 * 86400, -3 * 86400, -30 * 3600, -9000, -3660, -600, 0, 1799, 3660}
 		for _, mi := range uniq(mins) {
 			for _, h := range hours {
 				for _, d := range doms {
@@ -641,9 +703,41 @@ func findingKey(r *run, at int, why string) string {
 			near = append(near, tr)
 		}
 	}
-	// zone-level classes first (keys <zone class>:<zone>:<failure class>: the other zones, and the other failure
-	// classes of the same zone, keep full checking)
+	// zone-level classes first: keys <zone class>:<zone>:<failure class>:<where t lies>:<where the wrong result / the
+	// missed match lies> relative to the nearest transition, so that a different manifestation in the same zone
+	// gets a different key (hangs carry no position: the search could have been anywhere)
 	suffix := ":" + cls
+	if cls != "hang" {
+		ref := e.T
+		tag := "r"
+		switch {
+		case strings.HasPrefix(cls, "skipped") || strings.HasPrefix(cls, "zero"):
+			tag = "e" // the match that was missed
+			if m := reNum.FindStringSubmatch(why); m != nil {
+				if v, err := strconv.ParseInt(m[1], 10, 64); err == nil {
+					ref = v + r.Epoch
+				}
+			}
+		case !e.Zero && !e.Far:
+			ref = e.R
+		}
+		var x *transition
+		for i := range near {
+			d := near[i].At - ref
+			if d < 0 {
+				d = -d
+			}
+			if x == nil || d < abs64(x.At-ref) {
+				x = &near[i]
+			}
+		}
+		if x != nil {
+			suffix += ":" + bucket("t", e.T-x.At)
+			if tag == "r" { // where the wrong result lies; for a missed match the position of t is discriminating enough
+				suffix += ":" + bucket(tag, ref-x.At)
+			}
+		}
+	}
 	for _, tr := range near {
 		if (tr.After-tr.Before)%3600 != 0 {
 			return "zone-shift-not-multiple-of-1h:" + r.Zone + suffix
@@ -672,6 +766,37 @@ func findingKey(r *run, at int, why string) string {
 		return "next:" + cls + ":no-transition:" + rule
 	}
 	return "next:" + cls + ":" + near[0].class()
+}
+
+func abs64(v int64) int64 {
+	if v < 0 {
+		return -v
+	}
+	return v
+}
+
+// bucket says where an instant lies relative to a transition (d = instant - transition, seconds): the start
+// instant (tag t) more than a day before / within the day before / after it; the wrong result (r) or the missed
+// match (e) before it / within the hour after it / within the day after it / later.
+func bucket(tag string, d int64) string {
+	if tag == "t" {
+		switch {
+		case d < -86400:
+			return "t-far-before"
+		case d < 0:
+			return "t-day-before"
+		}
+		return "t-after"
+	}
+	switch {
+	case d < 0:
+		return tag + "-before"
+	case d < 3600:
+		return tag + "-at"
+	case d < 86400:
+		return tag + "-day-after"
+	}
+	return tag + "-far-after"
 }
 
 func givenFieldOrNil(x *expr, f int) []term {
@@ -705,8 +830,16 @@ func stagedForm(r *run, at int) string {
 		}
 		spec = strings.Join(fs, " ")
 	}
-	from := time.Unix(r.Nexts[at-1].T, 0).In(mustLoad(r.Zone)).Format(time.RFC3339)
-	return fmt.Sprintf("{%q, %q, %q, 1, %q},", spec, r.Zone, from, "")
+	loc := mustLoad(r.Zone)
+	n := r.Nexts[at-1]
+	res := "never returns"
+	switch {
+	case n.Zero:
+		res = "returns the zero time"
+	case !n.Hang:
+		res = "returns " + time.Unix(n.R, 0).In(loc).Format(time.RFC3339)
+	}
+	return fmt.Sprintf("\"TZ=%s %s\" (6 fields) Next(%s) %s", r.Zone, spec, time.Unix(n.T, 0).In(loc).Format(time.RFC3339), res)
 }
 
 // ---------- TLC validation in chunks ----------
@@ -782,19 +915,23 @@ func TestCheck(t *testing.T) {
 	thorough := ev.Thorough()
 	g := &gen{rng: rand.New(rand.NewSource(ev.Seed()))}
 
+	mcCfg, enumCfg := ev.Pick("MC_small.cfg", "MC_big.cfg"), ev.Pick("TermEnum_small.cfg", "TermEnum_big.cfg")
+	if os.Getenv("VERIF_C04_SWEEP") == "only" {
+		mcCfg, enumCfg = "MC_small.cfg", "TermEnum_small.cfg"
+	}
 	// 1. (background) the oracle checked against the second-by-second definition, exhaustively for the small family
 	var mc, mcDefect tlc.Result
 	var bg sync.WaitGroup
 	bg.Add(1)
 	go func() {
 		defer bg.Done()
-		mc = tlc.Run(tlc.Opts{Dir: specDir, Module: "CronNextMC", Config: ev.Pick("MC_small.cfg", "MC_big.cfg"), Workers: ev.Pick(6, 12),
+		mc = tlc.Run(tlc.Opts{Dir: specDir, Module: "CronNextMC", Config: mcCfg, Workers: ev.Pick(6, 12),
 			Timeout: ev.Pick(6*time.Minute, 40*time.Minute), Args: []string{"-noGenerateSpecTE"}})
 		mcDefect = tlc.Run(tlc.Opts{Dir: specDir, Module: "CronNextMC", Config: "MC_defect.cfg", Workers: 2, Timeout: 5 * time.Minute, Args: []string{"-noGenerateSpecTE"}})
 	}()
 
 	// 2. spec -> code: TLC enumerates the single-term grammar
-	enum := tlc.Run(tlc.Opts{Dir: specDir, Module: "CronTermEnum", Config: ev.Pick("TermEnum_small.cfg", "TermEnum_big.cfg"), Workers: 2,
+	enum := tlc.Run(tlc.Opts{Dir: specDir, Module: "CronTermEnum", Config: enumCfg, Workers: 2,
 		Timeout: ev.Pick(5*time.Minute, 20*time.Minute), Args: []string{"-noGenerateSpecTE"}})
 	fmt.Printf("TLC term enumeration: ok=%v states=%d wall=%s %s\n", enum.OK, enum.Distinct, enum.Wall.Round(time.Millisecond), enum.What)
 	var terms []enumTerm
@@ -827,7 +964,7 @@ func TestCheck(t *testing.T) {
 	// 3. code -> spec: seeded runs on the real Parse / Next
 	dst := zonesWithTransitions()
 	nRuns := ev.Pick(900, 22000)
-	sweepMode := os.Getenv("VERIF_C04_SWEEP") // "" | "full" (whole family) | "only" (whole family, no seeded runs: to enumerate finding keys)
+	sweepMode := os.Getenv("VERIF_C04_SWEEP") // "" | "full" (the whole sweep family) | "only" (the deterministic parts of this tier only, no seeded runs: with VERIF_C04_KEYCASES=1 this enumerates the finding keys of the unchanged tree)
 	if sweepMode == "only" {
 		nRuns = 0
 	}
@@ -870,36 +1007,30 @@ func TestCheck(t *testing.T) {
 		nextCalls += len(r.Nexts)
 		e.Nontrivial(r.Text + "|" + r.Zone + "|" + strconv.FormatInt(r.Start.Unix(), 10))
 	}
-	// the deterministic sweep (thorough: one in three of the family; VERIF_C04_SWEEP=full: all of it)
+	// the deterministic sweep: quick one in 29 of the family, thorough (or VERIF_C04_SWEEP=full) all of it
 	sweepN := 0
-	if thorough || sweepMode != "" {
-		stride := 3
-		if sweepMode != "" {
+	{
+		stride := ev.Pick(29, 1)
+		if sweepMode == "full" {
 			stride = 1
 		}
 		for _, zn := range sweepZones {
 			for _, r := range sweepRuns(zn, func(i int) bool { return i%stride == 0 }) {
-				near := 0
-				for _, at := range hungAt[r.Zone] {
-					if d := r.Start.Unix() - at; d > -45*86400 && d < 45*86400 {
-						near++
-					}
-				}
-				if near >= 2 || hangs >= maxHangs {
-					continue
-				}
 				r.execute()
-				for _, n := range r.Nexts {
-					if n.Hang {
-						hungAt[r.Zone] = append(hungAt[r.Zone], r.Start.Unix())
-					}
-				}
 				runs = append(runs, r)
 				nextCalls += len(r.Nexts)
 				sweepN++
 			}
 		}
 	}
+	leap := leapDayRuns()
+	for _, r := range leap {
+		r.execute()
+		runs = append(runs, r)
+		nextCalls += len(r.Nexts)
+		e.Nontrivial(r.Text + "|" + r.Zone + "|" + strconv.FormatInt(r.Start.Unix(), 10))
+	}
+	e.Set("leap_day_runs", int64(len(leap)))
 	e.Set("sweep_runs", int64(sweepN))
 	e.Set("staged_cases", int64(len(stagedCases)))
 	e.Set("runs", int64(len(runs)))
@@ -917,7 +1048,7 @@ func TestCheck(t *testing.T) {
 	{
 		// every enumerated term was replayed and compared with the enumeration's expectation; TLC (TraceCron)
 		// re-judges a stride sample of the replays plus every one that differed
-		stride := len(termRuns)/ev.Pick(6000, 60000) + 1
+		stride := len(termRuns)/ev.Pick(3000, 60000) + 1
 		for i := int(ev.Seed()) % stride; i < len(termRuns); i += stride {
 			all = append(all, termRuns[i])
 			sampled[termRuns[i]] = true
@@ -931,7 +1062,7 @@ func TestCheck(t *testing.T) {
 	}
 	e.Set("traces_validated_against_impl", int64(len(all)))
 	e.Set("evaluations", int64(nextCalls+len(runs)+len(termRuns)))
-	e.Set("rule", "a run = one expression (AST drawn from the field grammar: every term form for every field, lists <= 3, names, ?, descriptors, @every; or one planted defect of each refusal class) x parser option set x TZ=/CRON_TZ= prefix or process-local zone x zone (fixed, whole-hour DST both hemispheres, midnight transitions, 30/45-minute offsets, 30-minute DST, skipped day) x start instant (within 3 h of a transition 2010-2035, calendar corners, random; 9% of the runs in 2096-2104 / 2196-2204 around the century years without 29 February) carried in another Location, walked 1-20 Next steps; plus staged cases (five-year horizon, century years, one reproducer per known (zone, failure class) pair), in the thorough tier a deterministic sweep of expressions aimed at the transitions of the zones with midnight / off-hour / 30-minute / day-skipping changes, and every single term of every field enumerated by TLC; each Parse and each Next call is one evaluation judged by TLC; non-trivial = a run with at least one Next call, or an enumerated term; distinct by expression text, zone and start instant")
+	e.Set("rule", "a run = one expression (AST drawn from the field grammar: every term form for every field, lists <= 3, names, ?, descriptors, @every; or one planted defect of each refusal class) x parser option set x TZ=/CRON_TZ= prefix or process-local zone x zone (fixed, whole-hour DST both hemispheres, midnight transitions, 30/45-minute offsets, 30-minute DST, skipped day) x start instant (within 3 h of a transition 2010-2035, calendar corners, random; 9% of the runs in 2096-2104 / 2196-2204 around the century years without 29 February) carried in another Location, walked 1-20 Next steps; plus, without randomness: staged cases (five-year horizon, century years, fixed defect reproducers), leap-day / impossible-date expressions (5 and 6 fields, TZ= / CRON_TZ= / no prefix) from the years before 1900, 2100, 2200 and around ordinary leap years, a sweep of expressions aimed at the transitions of the zones with midnight / off-hour / 30-minute / day-skipping changes (quick: 1 in 29 of the family, thorough: all; the seeded walks use the other zones), and every single term of every field enumerated by TLC; each Parse and each Next call is one evaluation judged by TLC; non-trivial = a run with at least one Next call, or an enumerated term; distinct by expression text, zone and start instant")
 	rejected := map[*run]bool{}
 	calendarMismatch := 0
 	sort.Slice(rej, func(i, j int) bool { return rej[i].run.Text+rej[i].run.Zone < rej[j].run.Text+rej[j].run.Zone })
@@ -940,7 +1071,7 @@ func TestCheck(t *testing.T) {
 	defer func() {
 		var kc []string
 		for k, c := range keyCase {
-			kc = append(kc, "KEYCASE "+k+" "+c)
+			kc = append(kc, "KNOWNLINE known: property=C04 key="+k+" "+c)
 		}
 		sort.Strings(kc)
 		for _, l := range kc {
@@ -1019,7 +1150,7 @@ func TestCheck(t *testing.T) {
 		"the duration syntax of '@every d' is time.ParseDuration's; the harness hands d (whole seconds) to the spec",
 		"expressions outside the documented grammar (e.g. '*-5', '+5', empty list items, '?' outside the day fields) are not generated; a schedule without TZ= prefix is read in the zone of the instant handed to Next (spec.go: 'treated as local to the time provided'; this is how cron.WithLocation takes effect)",
 		"either-day rule: a day field is 'restricted' when it has no star and excludes some value; for a star inside a list, '*/1' or a star-free full range both readings are accepted",
-		"'none within five years': a match up to five calendar years after t (minus one day of slack for the zone offset) must be returned; if the first match is later, it or the zero time is accepted",
+		"'none within five years': a match whose wall-clock reading is at most five calendar years after that of t (by the wall clock of the schedule's zone) must be returned; if the first match is later, it or the zero time is accepted",
 		"instants are handed to TLC relative to 1 January of the run's epoch year (32-bit integers); the calendar arithmetic is absolute, so any century is judged (runs around 2096-2104 and 2196-2204 are generated)")
 }
 
